@@ -815,7 +815,7 @@ def live_monitors(case, out):
 
 def run_live_cases(opts, n, rng):
     cases = [gen_live(rng.fork(), opts) for _ in range(n)]
-    env_wd = str(opts.get("live_watchdog_s", 120))
+    env_wd = str(opts.get("live_watchdog_s", 75))
     os.environ["SIM_WATCHDOG_S"] = env_wd
     try:
         with ThreadPoolExecutor(max_workers=opts.get("workers", 12)) as ex:
